@@ -240,7 +240,10 @@ def _to_stiefel_euler_real(theta, dim, rank):
             ct = torch.cos(theta_i)
             st = torch.sin(theta_i)
             cum_st = torch.cumprod(st, dim=1)
-            rowJ = torch.concat([ct[:,:1], ct[:,1:]*cum_st[:,:-1], cum_st[:,-1:]], dim=1).reshape(batch,N0+1,1)
+            if N0==0: #rank==dim, the first column is a unit vector in a 1-dimensional space
+                rowJ = torch.ones(batch, 1, 1, dtype=theta.dtype, device=theta.device)
+            else:
+                rowJ = torch.concat([ct[:,:1], ct[:,1:]*cum_st[:,:-1], cum_st[:,-1:]], dim=1).reshape(batch,N0+1,1)
             if ret is None:
                 ret = rowJ
             else:
@@ -260,7 +263,10 @@ def _to_stiefel_euler_real(theta, dim, rank):
             ct = np.cos(theta_i)
             st = np.sin(theta_i)
             cum_st = np.cumprod(st, axis=1)
-            rowJ = np.concatenate([ct[:,:1], ct[:,1:]*cum_st[:,:-1], cum_st[:,-1:]], axis=1).reshape(batch,N0+1,1)
+            if N0==0: #rank==dim, the first column is a unit vector in a 1-dimensional space
+                rowJ = np.ones((batch, 1, 1), dtype=theta.dtype)
+            else:
+                rowJ = np.concatenate([ct[:,:1], ct[:,1:]*cum_st[:,:-1], cum_st[:,-1:]], axis=1).reshape(batch,N0+1,1)
             if ret is None:
                 ret = rowJ
             else:
@@ -296,7 +302,10 @@ def _to_stiefel_euler_complex(theta, dim, rank, with_phase):
             ct = torch.cos(theta_i)
             st = torch.sin(theta_i)
             cum_st = torch.cumprod(st, dim=1)
-            rowJ = (torch.concat([ct[:,:1], ct[:,1:]*cum_st[:,:-1], cum_st[:,-1:]],dim=1)*cum_expp).reshape(batch,N0+1,1)
+            if N0==0: #rank==dim, the first column is a unit vector in a 1-dimensional space
+                rowJ = torch.ones(batch, 1, 1, dtype=cum_expp.dtype, device=theta.device)
+            else:
+                rowJ = (torch.concat([ct[:,:1], ct[:,1:]*cum_st[:,:-1], cum_st[:,-1:]],dim=1)*cum_expp).reshape(batch,N0+1,1)
             if ret is None:
                 ret = rowJ
             else:
@@ -321,7 +330,10 @@ def _to_stiefel_euler_complex(theta, dim, rank, with_phase):
             ct = np.cos(theta_i)
             st = np.sin(theta_i)
             cum_st = np.cumprod(st, axis=1)
-            rowJ = (np.concatenate([ct[:,:1], ct[:,1:]*cum_st[:,:-1], cum_st[:,-1:]],axis=1)*cum_expp).reshape(batch,N0+1,1)
+            if N0==0: #rank==dim, the first column is a unit vector in a 1-dimensional space
+                rowJ = np.ones((batch, 1, 1), dtype=cum_expp.dtype)
+            else:
+                rowJ = (np.concatenate([ct[:,:1], ct[:,1:]*cum_st[:,:-1], cum_st[:,-1:]],axis=1)*cum_expp).reshape(batch,N0+1,1)
             if ret is None:
                 ret = rowJ
             else:
